@@ -19,4 +19,5 @@ def main():
     print("harness imports ok; ciw from", ciw.__file__)
     os.makedirs(os.path.join(VERIF, "evidence"), exist_ok=True)
     sys.exit(rc)
-main()
+if __name__ == "__main__":
+    main()
